@@ -1,6 +1,8 @@
-(* Model of dagrt/data.py: SymbolKindTable.set (181-204), KindInferenceMapper restricted
-   to constants / variables / sums / products / quotients / comparisons (300-352, 404),
-   and the SymbolKindFinder work-list iteration (482-611).  Definitions only.
+(* Model of dagrt/data.py: SymbolKindTable.set, KindInferenceMapper restricted to constants /
+   variables / sums / products / quotients / comparisons / function calls, the SymbolKindFinder
+   work-list iteration, the DAGCode front end infer_kinds, and of the result kinds of the
+   functions of dagrt/function_registry.py (get_result_kinds with check=False, which is what
+   SymbolKindFinder.make_kim hard-wires; dagrt/utils.py resolve_args).  Definitions only.
 
    Mirrors what the code does, defects included:
    * `set`: the first kind of a name is stored; later kinds are unified in
@@ -12,20 +14,156 @@
      keeps a detached empty dict and does not see what `set` creates afterwards (lookup_kim).
    * statements are popped from the END of the queue; deferred statements go to a push
      buffer that becomes the queue when the queue is empty; "no progress" => diagnostics
-     (AssertionError if a left-over statement can now be inferred) and RuntimeError.
+     (AssertionError if a left-over statement can now be inferred) and RuntimeError
+     (switch c_restart: only if the table did not change during this pass; otherwise the
+     next pass over all statements is started).
    * a subscripted assignment only sets its loop variables and is dropped (`continue`),
      which does not count as progress.
    * loop variables are registered only when their statement is popped (switch
      c_loops_prepass: also up front, for all statements, right after the forced kinds).
    * the closing consistency loop evaluates every `stmt.expression` (not flattened) once more
      with check=False (make_kim ignores its `check` argument) and lets exceptions escape.
+   * map_generic_call: the registry lookup comes first (FunctionNotFound escapes), an argument
+     that cannot be inferred is passed as None, ANY exception of get_result_kinds (wrong
+     arguments for resolve_args, tuple unpacking, AttributeError on `.is_real_valued`, ...)
+     becomes UnableToInferKind; in an expression the function must return exactly one value.
+   * matmul / transpose / linear_solve / svd read `a_kind.is_real_valued` of whatever kind they
+     are given: a Scalar is accepted, Integer/Boolean/UserType end in AttributeError = unable
+     (switch c_arr_only: unable unless the matrix arguments are arrays).
 
-   `flatten` (pymbolic) is external: a statement carries both `stmt.expression` (b_raw) and
-   `flatten(stmt.expression)` (b_flat, computed by the real pymbolic in the harness); the
+   `flatten` (pymbolic) is external: an Assign carries both `stmt.expression` (raw) and
+   `flatten(stmt.expression)` (flat, computed by the real pymbolic in the harness); the
    theorems hold for arbitrary pairs. *)
 From Coq Require Import List String Bool Arith.
 Import ListNotations.
 From Dagrt Require Import Unify.
+
+(* ------------------------------------------------------------------ functions *)
+
+(* which get_result_kinds a registered function uses *)
+Inductive rkind :=
+| RNorm | RAbs | RDot | RLen | RIsNan | RArray | RMatMul | RTranspose | RLinSolve | RSvd | RPrint
+| RRhs (out : string)          (* _ODERightHandSide: UserType(output_type_id) *)
+| RFixed (ks : list kind).     (* FixedResultKindsFunction: result_kinds, arguments not looked at *)
+
+Record fsig := {
+  f_args : list string;        (* arg_names *)
+  f_nres : nat;                (* len(result_names) *)
+  f_rk : rkind
+}.
+
+Definition registry := list (string * fsig).
+
+Fixpoint rlookup (reg : registry) (f : string) : option fsig :=
+  match reg with
+  | [] => None
+  | (n, s) :: r => if String.eqb n f then Some s else rlookup r f
+  end.
+
+Fixpoint alookup {A} (l : list (string * A)) (x : string) : option A :=
+  match l with
+  | [] => None
+  | (n, v) :: r => if String.eqb n x then Some v else alookup r x
+  end.
+
+Fixpoint aremove {A} (l : list (string * A)) (x : string) : list (string * A) :=
+  match l with
+  | [] => []
+  | (n, v) :: r => if String.eqb n x then aremove r x else (n, v) :: aremove r x
+  end.
+
+(* dagrt/utils.py resolve_args with an empty default_dict: None = TypeError *)
+Fixpoint resolve {A} (names : list string) (pos : list A) (kw : list (string * A)) : option (list A) :=
+  match names with
+  | [] => match pos, kw with [], [] => Some [] | _, _ => None end
+  | n :: names' =>
+      match pos with
+      | p :: pos' =>
+          match alookup kw n with
+          | Some _ => None
+          | None => match resolve names' pos' kw with Some r => Some (p :: r) | None => None end
+          end
+      | [] =>
+          match alookup kw n with
+          | Some v => match resolve names' [] (aremove kw n) with Some r => Some (v :: r) | None => None end
+          | None => None
+          end
+      end
+  end.
+
+(* the LAST [length kwn] values are keyword arguments with these names *)
+Definition split_args {A} (vals : list A) (kwn : list string) : list A * list (string * A) :=
+  let npos := List.length vals - List.length kwn in
+  (firstn npos vals, combine kwn (skipn npos vals)).
+
+(* `x_kind.is_real_valued`: None = AttributeError *)
+Definition realness (k : okind) : option bool :=
+  match k with
+  | Some (KScalar r) | Some (KArray r) => Some r
+  | _ => None
+  end.
+
+(* transpose / svd: realness of the result, None = an exception *)
+Definition mat1 (arr_only : bool) (x : okind) : option bool :=
+  if arr_only then match x with Some (KArray r) => Some r | _ => None end
+  else match x with None => None | _ => realness x end.
+
+(* matmul / linear_solve; `a_kind.is_real_valued and b_kind.is_real_valued` short-circuits *)
+Definition mat2 (arr_only : bool) (x y : okind) : option bool :=
+  if arr_only then
+    match x, y with
+    | Some (KArray rx), Some (KArray ry) => Some (rx && ry)
+    | _, _ => None
+    end
+  else
+    match x, y with
+    | None, _ | _, None => None
+    | _, _ => match realness x with
+              | None => None
+              | Some false => Some false
+              | Some true => realness y
+              end
+    end.
+
+(* get_result_kinds(arg_kinds, check=False) after resolve_args; None = an exception *)
+Definition result_kinds (arr_only : bool) (rk : rkind) (a : list okind) : option (list kind) :=
+  match rk, a with
+  | RNorm, [_] => Some [KScalar true]
+  | RAbs, [x] =>
+      match x with
+      | Some (KUser i) => Some [KUser i]
+      | Some (KArray _) => Some [KArray true]
+      | Some (KScalar _) => Some [KScalar true]
+      | _ => None
+      end
+  | RDot, [_; _] => Some [KScalar false]
+  | RLen, [_] => Some [KScalar true]
+  | RIsNan, [_] => Some [KBool]
+  | RArray, [_] => Some [KArray true]
+  | RMatMul, [x; y; _; _] | RLinSolve, [x; y; _; _] =>
+      match mat2 arr_only x y with Some r => Some [KArray r] | None => None end
+  | RTranspose, [x; _] =>
+      match mat1 arr_only x with Some r => Some [KArray r] | None => None end
+  | RSvd, [x; _] =>
+      match mat1 arr_only x with Some r => Some [KArray r; KArray r; KArray r] | None => None end
+  | RPrint, [_] => Some []
+  | RRhs out, _ => Some [KUser out]
+  | _, _ => None
+  end.
+
+(* func.get_result_kinds(arg_kinds, False) including resolve_args *)
+Definition call_kinds (arr_only : bool) (s : fsig) (vals : list okind) (kwn : list string)
+  : option (list kind) :=
+  match f_rk s with
+  | RFixed ks => Some ks
+  | rk => let (pos, kw) := split_args vals kwn in
+          match resolve (f_args s) pos kw with
+          | None => None
+          | Some a => result_kinds arr_only rk a
+          end
+  end.
+
+(* ------------------------------------------------------------------ configuration *)
 
 Record cfg := {
   c_ut_int : bool;             (* unify: UserType branch accepts Integer *)
@@ -33,6 +171,9 @@ Record cfg := {
   c_ins_changed : bool;        (* set: inserting a new name sets _changed *)
   c_set_raises : bool;         (* set: a failing unification is re-raised *)
   c_loops_prepass : bool;      (* finder: loop variables are registered before the work-list loop *)
+  c_restart : bool;            (* finder: no progress, but the table changed in this pass => next pass *)
+  c_arr_only : bool;           (* registry: matrix built-ins are unable unless given arrays *)
+  c_reg : registry;            (* the function registry handed to SymbolKindFinder *)
   c_is_state : string -> bool; (* dagrt.utils.is_state_variable *)
   c_init_global : list string  (* names preset to Scalar(is_real_valued=True) in SymbolKindTable.__init__ *)
 }.
@@ -51,12 +192,21 @@ Inductive expr :=
 | ESum (l : list expr)
 | EProd (l : list expr)
 | EQuot (n d : expr)
-| ECmp (a b : expr).
+| ECmp (a b : expr)
+| ECall (f : string) (args : list expr) (kwn : list string).
+   (* Call / CallWithKwargs of the function symbol f; the LAST [length kwn] arguments are the
+      keyword arguments with these names (dict(enumerate(parameters)) then kw_parameters) *)
 
 Inductive ires :=
 | IOk (k : okind)
 | IUnable                        (* raise UnableToInferKind *)
 | IErr (e : err).
+
+(* result of map_generic_call(..., single_return_only=False) *)
+Inductive mres :=
+| MOk (ks : list okind)
+| MUnable
+| MErr (e : err).
 
 (* map_sum with check=False: children that cannot be inferred are skipped (last_exc is
    remembered); `if kind is None: raise last_exc` -- with last_exc = None that is a TypeError *)
@@ -92,6 +242,42 @@ Fixpoint prod_fold (c : cfg) (rs : list ires) (kind : okind) : ires :=
       end
   end.
 
+(* map_generic_call: `try: arg_kinds[key] = self.rec(val) except UnableToInferKind: ... = None`,
+   in the order of the argument dict; any other exception escapes *)
+Fixpoint arg_kinds (rs : list ires) : res (list okind) :=
+  match rs with
+  | [] => Ok []
+  | r :: rest =>
+      match r with
+      | IErr e => Err e
+      | IUnable => match arg_kinds rest with Ok l => Ok (None :: l) | Err e => Err e end
+      | IOk k => match arg_kinds rest with Ok l => Ok (k :: l) | Err e => Err e end
+      end
+  end.
+
+(* map_generic_call on the results of the arguments *)
+Definition call_res (c : cfg) (f : string) (rs : list ires) (kwn : list string) : mres :=
+  match rlookup (c_reg c) f with
+  | None => MErr FunctionNotFound
+  | Some sg =>
+      match arg_kinds rs with
+      | Err e => MErr e
+      | Ok aks => match call_kinds (c_arr_only c) sg aks kwn with
+                  | None => MUnable
+                  | Some ks => MOk (map (@Some kind) ks)
+                  end
+      end
+  end.
+
+(* single_return_only=True *)
+Definition single (m : mres) : ires :=
+  match m with
+  | MOk [k] => IOk k
+  | MOk _ => IErr RuntimeError
+  | MUnable => IUnable
+  | MErr e => IErr e
+  end.
+
 Fixpoint infer (c : cfg) (lk : string -> option okind) (e : expr) : ires :=
   match e with
   | EConst r => IOk (Some (KScalar r))
@@ -100,6 +286,7 @@ Fixpoint infer (c : cfg) (lk : string -> option okind) (e : expr) : ires :=
   | EProd l => prod_fold c (map (infer c lk) l) None
   | EQuot n d => prod_fold c [infer c lk n; infer c lk d] None
   | ECmp _ _ => IOk (Some KBool)
+  | ECall f args kwn => single (call_res c f (map (infer c lk) args) kwn)
   end.
 
 (* ------------------------------------------------------------------ the table *)
@@ -169,15 +356,36 @@ Definition lookup_kim (t0 t : table) (p x : string) : option okind :=
 
 (* ------------------------------------------------------------------ statements *)
 
+Inductive rhs :=
+| RExpr (flat raw : expr)      (* Assign: flatten(stmt.expression), stmt.expression *)
+| RCall (f : string) (args : list expr) (kwn : list string).
+                               (* AssignFunctionCall: function_id, parameters then kw_parameters *)
+
 Record bstmt := {
-  b_lhs : string;            (* stmt.assignee *)
-  b_sub : bool;              (* bool(stmt.assignee_subscript) *)
-  b_loops : list string;     (* [ident for ident, _, _ in stmt.loops] *)
-  b_flat : expr;             (* flatten(stmt.expression) *)
-  b_raw : expr               (* stmt.expression *)
+  b_lhs : list string;       (* [stmt.assignee] / stmt.assignees *)
+  b_sub : bool;              (* bool(stmt.assignee_subscript) (Assign only) *)
+  b_loops : list string;     (* [ident for ident, _, _ in stmt.loops] (Assign only) *)
+  b_rhs : rhs
 }.
 
 Definition qitem := (string * bstmt)%type.   (* (phase_name, stmt) *)
+
+Definition lift1 (r : ires) : mres :=
+  match r with IOk k => MOk [k] | IUnable => MUnable | IErr e => MErr e end.
+
+(* what the work-list loop evaluates: kim(flatten(stmt.expression)) resp. kim.map_generic_call *)
+Definition eval_work (c : cfg) (lk : string -> option okind) (s : bstmt) : mres :=
+  match b_rhs s with
+  | RExpr flat _ => lift1 (infer c lk flat)
+  | RCall f args kwn => call_res c f (map (infer c lk) args) kwn
+  end.
+
+(* what the diagnostics and the closing loop evaluate: kim(stmt.expression) *)
+Definition eval_check (c : cfg) (lk : string -> option okind) (s : bstmt) : mres :=
+  match b_rhs s with
+  | RExpr _ raw => lift1 (infer c lk raw)
+  | RCall f args kwn => call_res c f (map (infer c lk) args) kwn
+  end.
 
 Fixpoint set_loops (c : cfg) (st : tstate) (p : string) (l : list string) : res tstate :=
   match l with
@@ -186,6 +394,16 @@ Fixpoint set_loops (c : cfg) (st : tstate) (p : string) (l : list string) : res 
               | Ok st' => set_loops c st' p r
               | Err e => Err e
               end
+  end.
+
+(* `for assignee, kind in zip(stmt.assignees, kinds): result.set(phase_name, assignee, kind=kind)` *)
+Fixpoint set_many (c : cfg) (st : tstate) (p : string) (xs : list string) (ks : list okind) : res tstate :=
+  match xs, ks with
+  | x :: xs', k :: ks' => match tset c st p x k with
+                          | Ok st' => set_many c st' p xs' ks'
+                          | Err e => Err e
+                          end
+  | _, _ => Ok st
   end.
 
 Inductive pres :=
@@ -201,13 +419,13 @@ Definition process (c : cfg) (st : tstate) (it : qitem) : pres :=
   | Err e => PErr e
   | Ok st1 =>
       if b_sub s then PDone st1
-      else match infer c (lookup_kim (tbl st) (tbl st1) p) (b_flat s) with
-           | IUnable => PDefer st1
-           | IErr e => PErr e
-           | IOk k => match tset c st1 p (b_lhs s) k with
-                      | Ok st2 => PProgress st2
-                      | Err e => PErr e
-                      end
+      else match eval_work c (lookup_kim (tbl st) (tbl st1) p) s with
+           | MUnable => PDefer st1
+           | MErr e => PErr e
+           | MOk ks => match set_many c st1 p (b_lhs s) ks with
+                       | Ok st2 => PProgress st2
+                       | Err e => PErr e
+                       end
            end
   end.
 
@@ -221,15 +439,16 @@ Inductive fres :=
 Fixpoint diagnostics (c : cfg) (t : table) (l : list qitem) : err :=
   match l with
   | [] => RuntimeError
-  | it :: r => match infer c (lookup t (fst it)) (b_raw (snd it)) with
-               | IUnable => diagnostics c t r
-               | IOk _ => AssertionError
-               | IErr e => e
+  | it :: r => match eval_check c (lookup t (fst it)) (snd it) with
+               | MUnable => diagnostics c t r
+               | MOk _ => AssertionError
+               | MErr e => e
                end
   end.
 
 (* queue: head = next element popped (Python pops from the end of its list);
-   buf: push buffer, head = last appended *)
+   buf: push buffer, head = last appended.  Returning FOk with the change flag set makes the
+   outer loop start its next pass: that is what `break` does in the c_restart shape. *)
 Fixpoint inner (c : cfg) (fuel : nat) (st : tstate) (queue buf : list qitem) (progress : bool) : fres :=
   match fuel with
   | 0 => FOutOfFuel
@@ -238,6 +457,7 @@ Fixpoint inner (c : cfg) (fuel : nat) (st : tstate) (queue buf : list qitem) (pr
       | [] => match buf with
               | [] => FOk st
               | _ :: _ => if progress then inner c f st buf [] false
+                          else if c_restart c && changed st then FOk st
                           else FErr (diagnostics c (tbl st) (rev buf))
               end
       | it :: q =>
@@ -250,14 +470,31 @@ Fixpoint inner (c : cfg) (fuel : nat) (st : tstate) (queue buf : list qitem) (pr
       end
   end.
 
+(* one statement of the closing consistency loop; for a call statement also
+   `len(func.result_names) != len(stmt.assignees)` => ValueError *)
+Definition check_item (c : cfg) (t : table) (it : qitem) : option err :=
+  match eval_check c (lookup t (fst it)) (snd it) with
+  | MUnable => Some UnableToInferKind
+  | MErr e => Some e
+  | MOk _ =>
+      match b_rhs (snd it) with
+      | RExpr _ _ => None
+      | RCall f _ _ =>
+          match rlookup (c_reg c) f with
+          | None => Some FunctionNotFound
+          | Some sg => if Nat.eqb (f_nres sg) (List.length (b_lhs (snd it))) then None
+                       else Some ValueError
+          end
+      end
+  end.
+
 (* closing consistency loop *)
 Fixpoint final_check (c : cfg) (t : table) (l : list qitem) : option err :=
   match l with
   | [] => None
-  | it :: r => match infer c (lookup t (fst it)) (b_raw (snd it)) with
-               | IOk _ => final_check c t r
-               | IUnable => Some UnableToInferKind
-               | IErr e => Some e
+  | it :: r => match check_item c t it with
+               | None => final_check c t r
+               | Some e => Some e
                end
   end.
 
@@ -324,9 +561,19 @@ Definition run_queue (c : cfg) (fuel : nat) (forced : list (string * string * ok
 Definition queue_of (phases : list (string * list bstmt)) : list qitem :=
   flat_map (fun np => map (pair (fst np)) (snd np)) phases.
 
+(* SymbolKindFinder.__call__(names, phases, forced_kinds): `zip(names, phases)` *)
 Definition find_kinds (c : cfg) (fuel : nat) (forced : list (string * string * okind))
-                      (phases : list (string * list bstmt)) : outcome :=
-  run_queue c fuel forced (queue_of phases).
+                      (names : list string) (phases : list (list bstmt)) : outcome :=
+  run_queue c fuel forced (queue_of (combine names phases)).
+
+(* dagrt.data.infer_kinds(dag, function_registry): dag.phases is a dict phase name -> phase, here
+   the association list in the dict's iteration order.
+     kind_finder = SymbolKindFinder(function_registry)
+     names = list(dag.phases)
+     phases = [phase.statements for phase in dag.phases.values()]
+     return kind_finder(names, phases) *)
+Definition infer_kinds (c : cfg) (fuel : nat) (dag : list (string * list bstmt)) : outcome :=
+  find_kinds c fuel [] (map fst dag) (map snd dag).
 
 (* ------------------------------------------------------------------ comparing outcomes *)
 
